@@ -12,7 +12,7 @@ PROPERTY = "C10"
 RULE = ("identifications over the Annex 10 six-bit alphabet (A-Z=1..26, space=32, 0-9=48..57): every legal code at every one of the 8 positions "
         "with the other 7 random legal (exhaustive 8x37) plus Hypothesis-drawn strings; TC 1-4 x category 0-7 x DF17/18 (callsign, category) and "
         "BDS 2,0 in DF20/21 with random header/address (cs20); oracle: output == input with ' ' -> '_', category == field; independence: "
-        "changing one character changes exactly that output position. non-trivial = string with >= 4 distinct symbols or a space/digit"
+        "changing one character changes exactly that output position; leg sparse: blank and nearly blank identifications, single characters at every position, one character eight times, digits only. non-trivial = string with >= 4 distinct symbols or a space/digit"
         ' Also: the keyword form callsign(msg=...), 98 real identification frames (leg corpus), four concurrent callers decoding different identifications (leg threads), 300 000 / 2.4 million distinct frames in a row in one process (leg volume), the first calls of a freshly imported package made by four threads at once (leg first_use), BDS 2,0 replies whose AP digits repeat digits inside MB, look-alike DF16/DF19 frames and other message types of the same aircraft decoded first, the decoders first handed damaged forms of the frame.')
 ASSUMPTIONS = ["character codes per Annex 10 Vol IV table 3-9 (ref table below, written from the standard)"]
 
@@ -99,6 +99,26 @@ def enum_positions(ctx):
                 others = "".join(rng.choice(ALPHA) for _ in range(8))
                 yield {"cs": others[:pos] + ch + others[pos + 1:], "pos": pos, "new": rng.choice(ALPHA), "tc": rng.randint(1, 4), "cat": rng.randint(0, 7),
                        "df": rng.choice([17, 18]), "ctx_addr": gen.addr24(rng), "ctx_head": rng.getrandbits(27), "hc": rng.choice("ULM")}
+
+
+def enum_sparse(ctx):
+    """identifications that are mostly or wholly padding: blank, one character at each position with spaces (or one repeated filler) around it,
+    one character eight times, text of every length padded with spaces on the right or the left, digits and spaces only"""
+    idx = 0
+    base = []
+    for filler in (" ", "A", "0"):
+        for pos in range(8):
+            for ch in ALPHA:
+                base.append(filler * pos + ch + filler * (7 - pos))
+    base += [ch * 8 for ch in ALPHA]
+    for n in range(0, 9):
+        base += ["KLM1023X"[:n] + " " * (8 - n), " " * (8 - n) + "KLM1023X"[:n], "12345678"[:n] + " " * (8 - n), "0" * n + " " * (8 - n)]
+    for cs in base:
+        idx += 1
+        if ctx.mine(idx):
+            rng = ctx.rng("sparse", idx)
+            yield {"cs": cs, "pos": rng.randrange(8), "new": rng.choice(ALPHA + "   "), "tc": rng.randint(1, 4), "cat": rng.randint(0, 7),
+                   "df": rng.choice([17, 18]), "ctx_addr": gen.addr24(rng), "ctx_head": rng.getrandbits(27), "hc": rng.choice("ULM")}
 
 
 def enum_corpus(ctx):
@@ -190,5 +210,7 @@ LEGS = [
     Leg("threads", chk_threads, enum=enum_threads, shards_quick=4, shards_thorough=8, doc="concurrent callers with a 1 us switch interval (detection is probabilistic, the verdict on a stateless decoder is not)"),
     Leg("corpus", chk_corpus, enum=enum_corpus, exhaustive=True, doc="98 real identification frames: decoded callsign re-encodes to the transmitted bits"),
     Leg("positions", chk_cs, enum=enum_positions, exhaustive=True, doc="every legal code at every position (8 x 37)"),
+    Leg("sparse", chk_cs, enum=enum_sparse, exhaustive=True, doc="identifications that are mostly padding: blank, one character at each position among spaces / one filler, one character eight times, "
+        "text of every length padded right or left, digits and spaces only (about 1000 strings, each with a one-character change)"),
     Leg("strings", chk_cs, strategy=s_cs, quick=12000, thorough=600000, doc="random identifications with a one-character change"),
 ]
